@@ -40,6 +40,7 @@ def entry_key(e):
 def run_cfgs(tier, seed):
     """-> list of children (each a list of run configs); the reference run is std_ref / ins_ref"""
     q = tier == "quick"
+    hashseeds = {}
     s = {"sampler": "std", "seed": seed}
     i = {"sampler": "ins", "seed": seed}
     children = [
@@ -97,6 +98,34 @@ def run_cfgs(tier, seed):
         ("multinomial", dict(run_kwargs={"posterior_sampling_method": "multinomial_resampling"}),
          "multinomial posterior resampling"),
     ]
+    # the SAME settings objects handed to both runs of a group (what a script that repeats a run does), in the current and
+    # in the deprecated layout (training keys and model_config inside flow_config)
+    sh = {"repeat": 2, "shared": True, "seed": seed + 5}
+    children += [
+        [dict(sh, sampler="std", name="shared_std_new_ref", layout="new", group="shared_std_new",
+              what="shared flow_config / training_config objects, current layout: same process twice"),
+         dict(sh, sampler="ins", name="shared_ins_dep_ref", layout="deprecated", group="shared_ins_dep",
+              what="shared flow_config object, deprecated layout: same process twice")],
+        [dict(sh, sampler="std", name="shared_std_dep_ref", layout="deprecated", group="shared_std_dep",
+              what="shared flow_config object, deprecated layout: same process twice"),
+         dict(sh, sampler="ins", name="shared_ins_new_ref", layout="new", group="shared_ins_new",
+              what="shared flow_config / training_config objects, current layout: same process twice")],
+    ]
+    # different processes with different string-hash seeds, multi-criteria / multi-option configurations
+    multi_i = {"sampler": "ins", "seed": seed + 7, "max_iteration": 6,
+               "extra": {"stopping_criterion": ["ratio", "Z_err", "log_dZ"], "tolerance": [0.0, 0.03, 1e-7],
+                         "check_criteria": "any"}}
+    multi_s = {"sampler": "std", "seed": seed + 7,
+               "extra": {"reparameterisations": {"x": {"reparameterisation": "rescaletobounds", "update_bounds": True},
+                                                 "y": {"reparameterisation": "rescaletobounds", "rescale_bounds": [0.0, 1.0]}},
+                         "flow_config": {"n_blocks": 2, "n_neurons": 8, "batch_norm_between_layers": True, "linear_transform": "lu"}}}
+    for hs_ in ("0", "1", "2", "random"):
+        hashseeds[len(children)] = hs_
+        ref = "_ref" if hs_ == "0" else ""
+        children.append([dict(multi_s, name=f"std_hash{hs_}{ref}", group="std_hash",
+                              what=f"several reparameterisation / flow options, process with PYTHONHASHSEED={hs_}"),
+                         dict(multi_i, name=f"ins_hash{hs_}{ref}", group="ins_hash",
+                              what=f"three stopping criteria, process with PYTHONHASHSEED={hs_}")])
     covc = [[], [], [], []]
     for j, (tag, kw_, what) in enumerate(cov):
         covc[j % 4].append(dict({"sampler": "std", "seed": seed + 3}, name=f"cov_{tag}_ref", repeat=2, group=f"cov_{tag}",
@@ -131,7 +160,7 @@ def run_cfgs(tier, seed):
                  dict(ij, name=f"ins_s{j}_chunk3_parprior", chunksize=3, n_pool=2, parallelise_prior=True, group=f"ins_s{j}",
                       what="n_pool=2, chunk size 3, parallelise_prior")],
             ]
-    return children
+    return children, hashseeds
 
 
 def run(chk):
@@ -178,10 +207,11 @@ def run(chk):
     # ---- tie B: real runs ---------------------------------------------------------------------------------
     seed = 1400 + chk.seed
     root = os.path.join(chk.build, "runs")
-    children = run_cfgs(chk.tier, seed)
+    children, hashseeds = run_cfgs(chk.tier, seed)
     results = {}
     with concurrent.futures.ThreadPoolExecutor(max_workers=8) as ex:
-        futs = [ex.submit(child_json, chk, {"mode": "runs", "root": f"{root}_{k}", "runs": cfgs}, 1500, str(101 + 17 * k))
+        futs = [ex.submit(child_json, chk, {"mode": "runs", "root": f"{root}_{k}", "runs": cfgs}, 1500,
+                          hashseeds.get(k, str(101 + 17 * k)))
                 for k, cfgs in enumerate(children)]
         fseed = ex.submit(child_json, chk, {"mode": "seedfn", "seeds": [seed, seed, seed + 1, None, 0, 0, 2 ** 32 - 1, 2 ** 32 - 1]}, 300)
         for k, f in enumerate(futs):
@@ -191,6 +221,7 @@ def run(chk):
                 for r in res["runs"]:
                     results[r["name"]] = r
         sres, serr = fseed.result()
+    hs_of = {c["name"]: hashseeds.get(k, str(101 + 17 * k)) for k, cfgs in enumerate(children) for c in cfgs}
     confirmed = set()
     groups = {}
     labels = []
@@ -205,6 +236,16 @@ def run(chk):
                     continue
                 chk.evaluations += 1
                 chk.count("runs:" + c["sampler"])
+                added = [d_ for d_ in rep.get("settings_diff", []) if d_["kind"] == "added"]
+                lost = [d_ for d_ in rep.get("settings_diff", []) if d_["kind"] != "added"]
+                for d_ in added:
+                    chk.count("caller's settings: key added by nessai: " + d_["path"])
+                if lost:
+                    chk.fail(f"C14:caller-settings-edited:{c['sampler']}:{lost[0]['path']}",
+                             f"{c['sampler']} sampler ({c.get('layout', 'current')} layout): FlowSampler edited the settings it was "
+                             f"given: " + "; ".join(f"{d_['path']} {d_['kind']} ({d_.get('before')} -> {d_.get('after', 'missing')})"
+                                                    for d_ in lost[:4]),
+                             {"reference": c, "run": c, "settings_diff": rep["settings_diff"]})
                 if rep.get("recorded_seed") != c["seed"]:
                     chk.fail(f"C14:seed-not-recorded:{c['sampler']}:seed={c['seed']}",
                              f"{c['sampler']} sampler: seed {c['seed']} was requested, the sampler records and uses "
@@ -234,7 +275,8 @@ def run(chk):
                     confirmed.add(c["finding"])
                 chk.fail(key_, f"{c['sampler']} sampler, seed {c['seed']}: {what} changes {', '.join(diff)} "
                          f"(log Z {ref[2]['logZ']} -> {rep['logZ']}, evaluations {ref[2]['evals']} -> {rep['evals']})",
-                         {"reference": ref[0], "run": c, "observed": {"reference": ref[2], "run": rep}})
+                         {"reference": ref[0], "run": c, "hashseeds": [hs_of[ref[0]["name"]], hs_of[c["name"]]],
+                          "observed": {"reference": ref[2], "run": rep}})
             if not c.get("finding"):
                 for p in ALL_PARTS:
                     labels.append(f"{c['name']}[{k}].{p}")
@@ -321,17 +363,44 @@ def replay(data):
     chk.known = []
     rc = 0
     if "run" in rp:
-        job = {"mode": "runs", "root": os.path.join(chk.build, "runs"),
-               "runs": [dict(rp["reference"], name="reference", repeat=1), dict(rp["run"], name="run", repeat=1)]}
-        r = subprocess.run(["timeout", "900", common.PY, os.path.join(common.VERIF, "harness", "c14_child.py")],
-                           input=json.dumps(job), capture_output=True, text=True, env=common.child_env(), cwd=chk.build)
-        if r.returncode != 0:
-            print(r.stderr[-800:])
+        same_cfg = rp["reference"].get("name") == rp["run"].get("name")
+        hs = rp.get("hashseeds") or ["0", "0"]
+
+        def go(cfgs, hashseed):
+            job = {"mode": "runs", "root": os.path.join(chk.build, "runs"), "runs": cfgs}
+            r_ = subprocess.run(["timeout", "900", common.PY, os.path.join(common.VERIF, "harness", "c14_child.py")],
+                                input=json.dumps(job), capture_output=True, text=True,
+                                env=common.child_env({"PYTHONHASHSEED": hashseed}), cwd=chk.build)
+            if r_.returncode != 0:
+                print(r_.stderr[-800:])
+                return None
+            return json.loads(r_.stdout)["runs"]
+
+        if same_cfg:                                   # the same configuration twice in ONE process (shared objects if asked)
+            out = go([dict(rp["run"], name="run", repeat=2)], hs[1])
+            reps = out and out[0]["reps"]
+        elif hs[0] != hs[1]:                           # two processes with the recorded string-hash seeds
+            o1, o2 = go([dict(rp["reference"], name="reference", repeat=1)], hs[0]), go([dict(rp["run"], name="run", repeat=1)], hs[1])
+            reps = o1 and o2 and [o1[0]["reps"][0], o2[0]["reps"][0]]
+        else:
+            out = go([dict(rp["reference"], name="reference", repeat=1), dict(rp["run"], name="run", repeat=1)], hs[0])
+            reps = out and [x["reps"][0] for x in out]
+        if not reps:
             return 1
-        a, b = [x["reps"][0] for x in json.loads(r.stdout)["runs"]]
+        for x in reps:
+            if "error" in x:
+                print(x.get("trace", x["error"])[-600:])
+                return 1
+        a, b = reps[0], reps[1]
+        lost = [d_ for x in reps for d_ in x.get("settings_diff", []) if d_["kind"] != "added"]
+        if lost:
+            print(f"VIOLATION property={PID} replay=(replayed) FlowSampler edited the settings it was given: "
+                  + "; ".join(f"{d_['path']} {d_['kind']}" for d_ in lost[:4]))
+            rc = 1
         diff = [p for p in ALL_PARTS if a["parts"][p] != b["parts"][p]]
-        print(json.dumps({"reference": {k: v for k, v in a.items() if k != "parts"}, "run": {k: v for k, v in b.items() if k != "parts"},
-                          "differing": diff}))
+        skip = ("parts", "sites")
+        print(json.dumps({"reference": {k: v for k, v in a.items() if k not in skip},
+                          "run": {k: v for k, v in b.items() if k not in skip}, "differing": diff})[:1500])
         bad_seed = [x for x in (a, b) if x.get("recorded_seed") != x.get("requested_seed")]
         if bad_seed:
             print(f"VIOLATION property={PID} replay=(replayed) seed {bad_seed[0]['requested_seed']} requested, "
